@@ -557,3 +557,61 @@ func (c *Ctx) nullChunkConsistent() {
 	}
 	c.verdict(own, "NewNullChunk:own-buffer", fn.Pos(), "Data is a buffer of its own, sized by the parameter", "Data is not a fresh make([]byte, size): a shared buffer has the length of the largest size ever asked for")
 }
+
+// valueErrorTypes: minio reports API failures as minio.ErrorResponse *values* (Error has a value
+// receiver, ToErrorResponse and the client return the struct itself).  Both T and *T implement
+// error, so a type assertion to *ErrorResponse or an errors.As with a **ErrorResponse target
+// compiles, passes vet and never matches: "no such key" is then no longer turned into
+// ChunkMissing and every router, cache and failover group takes a miss for a failure.
+func (c *Ctx) valueErrorTypes() {
+	isValueType := func(t types.Type) bool { return typeName(t) == "github.com/minio/minio-go/v6.ErrorResponse" || strings.HasSuffix(t.String(), "minio-go/v6.ErrorResponse") && !strings.HasPrefix(t.String(), "*") }
+	isPtrTo := func(t types.Type) (types.Type, bool) {
+		p, ok := t.Underlying().(*types.Pointer)
+		if !ok {
+			return nil, false
+		}
+		return p.Elem(), true
+	}
+	good, n := 0, 0
+	for _, fn := range c.libFuncsAll() {
+		for _, b := range fn.Blocks {
+			for _, ins := range b.Instrs {
+				switch x := ins.(type) {
+				case *ssa.TypeAssert:
+					if isValueType(x.AssertedType) {
+						n++
+						good++
+						c.ok(fnKey(fn)+":minio-error-assert", ins.Pos(), "asserts the value type minio.ErrorResponse")
+					} else if el, ok := isPtrTo(x.AssertedType); ok && isValueType(el) {
+						n++
+						c.bad(fnKey(fn)+":minio-error-assert", ins.Pos(), "asserts *minio.ErrorResponse, but minio returns ErrorResponse values: the assertion never holds and \"NoSuchKey\" is no longer recognised as a missing chunk")
+					}
+				case *ssa.Call:
+					name := callee(x)
+					if name != "errors.As" && name != "github.com/pkg/errors.As" {
+						continue
+					}
+					tt := x.Call.Args[1].Type()
+					if mi, ok := x.Call.Args[1].(*ssa.MakeInterface); ok {
+						tt = mi.X.Type()
+					}
+					el, ok := isPtrTo(tt)
+					if !ok {
+						continue
+					}
+					if isValueType(el) {
+						n++
+						good++
+						c.ok(fnKey(fn)+":minio-error-as", ins.Pos(), "errors.As with a *minio.ErrorResponse target matches the values minio returns")
+					} else if el2, ok := isPtrTo(el); ok && isValueType(el2) {
+						n++
+						c.bad(fnKey(fn)+":minio-error-as", ins.Pos(), "errors.As with a **minio.ErrorResponse target: minio returns ErrorResponse values, the target never matches and \"NoSuchKey\" is no longer recognised as a missing chunk")
+					}
+				}
+			}
+		}
+	}
+	if good == 0 {
+		c.bad("minio-errors", 0, "the S3 store no longer recognises minio.ErrorResponse at all (%d site(s)): a missing object is not reported as ChunkMissing", n)
+	}
+}
